@@ -121,7 +121,7 @@ package wal
 //@   invariant forall k int :: 0 <= k && k < len(ents) ==> ents[k].Index == w.start.Index + 1 + k
 //@   invariant len(ents) > 0 ==> ents[len(ents)-1].Index == w.enti || w.enti <= w.start.Index
 
-//@ property C03
+//@ property C03 C05
 // ---- Save: what reaches the disk before Save returns ----
 // ghost(flushes, nil): number of completed buffer flushes to the file; ghost(fsyncs, nil): completed fdatasyncs
 
